@@ -187,9 +187,28 @@ class FileStore(RuleBasedStateMachine):
 
     # -- chunks ----------------------------------------------------------------
     @rule(k=st.integers(0, len(KEYS) - 1), c=st.integers(0, len(COORDS) - 1),
+          size=st.sampled_from([70000, 300000, 1100000, 2200000]),
+          seed=st.integers(0, 250), compressible=st.booleans(),
+          overwrite=st.sampled_from([None, True, False]))
+    @logged
+    def store_big_chunk(self, k, c, size, seed, compressible, overwrite):
+        """Payloads beyond any internal buffer size (64 KiB .. 2 MiB)."""
+        if compressible:
+            block = bytes((seed + i * 7) % 256 for i in range(1021))
+            content = (block * (size // 1021 + 1))[:size]
+        else:
+            import numpy as np
+            content = np.random.default_rng(seed).bytes(size)
+        self.ops.add("big_payload")
+        self._store_chunk(k, c, content, overwrite)
+
+    @rule(k=st.integers(0, len(KEYS) - 1), c=st.integers(0, len(COORDS) - 1),
           content=content_st, overwrite=st.sampled_from([None, True, False]))
     @logged
     def store_chunk(self, k, c, content, overwrite):
+        self._store_chunk(k, c, content, overwrite)
+
+    def _store_chunk(self, k, c, content, overwrite):
         from neuroglancer_scripts.accessor import DataAccessError
         key, cc = KEYS[k], COORDS[c]
         mime = self.key_mime[key]
